@@ -360,6 +360,10 @@ func (a Atom) String() string {
 //	rawor      Where("<atom> OR <atom>", args...)
 //	map        Where(map[string]interface{}{col: value | list | nil})    atoms ANDed, ops = / in / isnull
 //	struct     Where(Rec{...}) / structptr Where(&Rec{...})               non-zero fields ANDed, op =
+//	pkint      Where(7) / First(&r, 7)            primary key lookups: one atom id IN (values)
+//	pkstring   Where("7") / First(&r, "7")
+//	pkslice    Where([]int64{2, 3, 5}) / Last(&r, []int64{2, 3, 5})
+//	pkvariadic Where(2, 3, 5) / Last(&r, 2, 3, 5)
 type Cond struct {
 	Kind  string `json:"kind"`
 	Atoms []Atom `json:"atoms"`
@@ -379,7 +383,7 @@ func zeroField(a Atom) bool {
 
 func (c Cond) eval(r Row) bool {
 	switch c.Kind {
-	case "raw":
+	case "raw", "pkint", "pkstring", "pkslice", "pkvariadic":
 		return c.Atoms[0].eval(r)
 	case "rawor":
 		return c.Atoms[0].eval(r) || c.Atoms[1].eval(r)
@@ -407,6 +411,18 @@ func (c Cond) args() (interface{}, []interface{}) {
 	case "raw":
 		s, a := c.Atoms[0].sql()
 		return s, a
+	case "pkint":
+		return c.Atoms[0].I[0], nil
+	case "pkstring":
+		return strconv.FormatInt(c.Atoms[0].I[0], 10), nil
+	case "pkslice":
+		return append([]int64(nil), c.Atoms[0].I...), nil
+	case "pkvariadic":
+		var rest []interface{}
+		for _, v := range c.Atoms[0].I[1:] {
+			rest = append(rest, v)
+		}
+		return c.Atoms[0].I[0], rest
 	case "rawor":
 		s1, a1 := c.Atoms[0].sql()
 		s2, a2 := c.Atoms[1].sql()
@@ -461,6 +477,8 @@ func (c Cond) String() string {
 		parts[i] = a.String()
 	}
 	switch c.Kind {
+	case "pkint", "pkstring", "pkslice", "pkvariadic":
+		return fmt.Sprintf("Where(%s:%v)", c.Kind, c.Atoms[0].I)
 	case "raw":
 		return "Where(`" + parts[0] + "`)"
 	case "rawor":
@@ -471,6 +489,90 @@ func (c Cond) String() string {
 		return "Where(Rec{" + strings.Join(parts, ", ") + "})"
 	}
 	return "Where(&Rec{" + strings.Join(parts, ", ") + "})"
+}
+
+// Scope is one function passed to Scopes(...); scopes run when the finisher executes.
+//
+//	cond     adds Where("b >= ?", K)
+//	inspect  a generic scope that looks at Statement.Model (or, without a model, Statement.Dest)
+//	         and adds `a <= K` when what is being queried has a field A
+//	order    adds Order("a desc") (it lands behind the chain's own ordering and behind the key
+//	         ordering First/Last/FindInBatches add, so those keep their meaning)
+//	page     adds Limit(K).Offset(O) (O > 0); First/Last/Take, FindInBatches and continued reads
+//	         are not judged with it: a Limit that arrives while the finisher already runs replaces
+//	         the finder's LIMIT 1 / the batch size, which nothing documents
+type Scope struct {
+	Kind string `json:"kind"`
+	K    int    `json:"k"`
+	O    int    `json:"o,omitempty"`
+}
+
+func (s Scope) String() string {
+	switch s.Kind {
+	case "cond":
+		return fmt.Sprintf("scope{Where(b >= %d)}", s.K)
+	case "inspect":
+		return fmt.Sprintf("scope{if model-or-dest has A: Where(a <= %d)}", s.K)
+	case "order":
+		return "scope{Order(a desc)}"
+	}
+	if s.O > 0 {
+		return fmt.Sprintf("scope{Limit(%d).Offset(%d)}", s.K, s.O)
+	}
+	return fmt.Sprintf("scope{Limit(%d)}", s.K)
+}
+
+func (s Scope) fn() func(*gorm.DB) *gorm.DB {
+	switch s.Kind {
+	case "cond":
+		return func(db *gorm.DB) *gorm.DB { return db.Where("b >= ?", s.K) }
+	case "inspect":
+		return func(db *gorm.DB) *gorm.DB {
+			target := db.Statement.Model
+			if target == nil {
+				target = db.Statement.Dest
+			}
+			if target == nil {
+				return db
+			}
+			stmt := &gorm.Statement{DB: db}
+			if err := stmt.Parse(target); err != nil {
+				return db
+			}
+			if f := stmt.Schema.LookUpField("A"); f != nil {
+				return db.Where(clause.Lte{Column: clause.Column{Table: clause.CurrentTable, Name: f.DBName}, Value: s.K})
+			}
+			return db
+		}
+	case "order":
+		return func(db *gorm.DB) *gorm.DB { return db.Order("a desc") }
+	}
+	return func(db *gorm.DB) *gorm.DB {
+		db = db.Limit(s.K)
+		if s.O > 0 {
+			db = db.Offset(s.O)
+		}
+		return db
+	}
+}
+
+func (s Scope) eval(r Row) bool {
+	switch s.Kind {
+	case "cond":
+		return r.B >= int64(s.K)
+	case "inspect":
+		return r.A <= int64(s.K)
+	}
+	return true
+}
+
+func (c Case) hasScope(kind string) bool {
+	for _, s := range c.Scopes {
+		if s.Kind == kind {
+			return true
+		}
+	}
+	return false
 }
 
 // Call is one Limit(n) / Offset(n) call; n is never 0 (DESIGN.md §2.9).
@@ -533,6 +635,8 @@ type Case struct {
 	Mode       string `json:"mode"` // all | batch (grid: only Find under key order and FindInBatches)
 	PtrBatch   bool   `json:"ptr_batch"`
 	Prefill    int    `json:"prefill"` // elements the []Rec destination of Find holds beforehand
+	// Scopes: functions handed to Scopes(...) (they run inside the finisher).
+	Scopes []Scope `json:"scopes,omitempty"`
 	// Expr: "" | where | select: the chain carries abs(b), which SQLite cannot
 	// evaluate for the smallest 64 bit integer ("integer overflow", raised when
 	// that row is reached): Where("abs(b) >= ?", 0) / Select("id, a, abs(b) AS b, s, c, d").
@@ -579,6 +683,9 @@ func (c Case) String() string {
 	fmt.Fprintf(&b, " batch=%d array=%d ptrbatch=%v prefill=%d", c.Batch, c.ArrayLen, c.PtrBatch, c.Prefill)
 	if c.Expr != "" {
 		fmt.Fprintf(&b, " runtime-error-expr=%s", c.Expr)
+	}
+	for _, sc := range c.Scopes {
+		b.WriteString(" +" + sc.String())
 	}
 	if c.Mode == "all" {
 		fmt.Fprintf(&b, " reuse=%q continue-with=Limit(%d)", c.Reuse, c.ContLimit)
@@ -664,19 +771,34 @@ func newReference(c Case) *reference {
 				break
 			}
 		}
+		for _, sc := range c.Scopes {
+			ok = ok && sc.eval(row)
+		}
 		if ok {
 			r.matched = append(r.matched, row)
 			r.inMatch[row.ID] = true
 		}
 	}
 	r.keys = orderKeys[c.Order]
+	if c.hasScope("order") {
+		r.keys = append(append([]sortKey(nil), r.keys...), sortKey{"a", true})
+	}
+	calls := c.Calls
+	for _, sc := range c.Scopes {
+		if sc.Kind == "page" { // runs after every call of the chain
+			calls = append(append([]Call(nil), calls...), Call{"limit", sc.K})
+			if sc.O > 0 {
+				calls = append(calls, Call{"offset", sc.O})
+			}
+		}
+	}
 	for _, k := range r.keys {
 		if k.col == "id" {
 			r.total = true
 		}
 	}
 	// later positive values override, negative values cancel
-	for _, k := range c.Calls {
+	for _, k := range calls {
 		switch {
 		case k.Kind == "limit" && k.N > 0:
 			if r.limit > 0 {
@@ -860,6 +982,13 @@ func (k *runner) chain(src string, inline bool) *gorm.DB {
 		q, a := cd.args()
 		db = db.Where(q, a...)
 	}
+	if len(k.c.Scopes) > 0 {
+		fns := make([]func(*gorm.DB) *gorm.DB, len(k.c.Scopes))
+		for i, sc := range k.c.Scopes {
+			fns[i] = sc.fn()
+		}
+		db = db.Scopes(fns...)
+	}
 	switch k.c.Expr {
 	case "where":
 		db = db.Where("abs(b) >= ?", 0)
@@ -897,6 +1026,16 @@ func (k *runner) structSrc() string { return k.c.Source }
 func (k *runner) plainSrc() string {
 	if k.c.Source == "dest" || orderUsesPKSymbol(k.c.Order) {
 		return "model"
+	}
+	for _, cd := range k.c.Conds {
+		if strings.HasPrefix(cd.Kind, "pk") { // a primary-key lookup needs the model as well
+			return "model"
+		}
+	}
+	for _, sc := range k.c.Scopes {
+		if sc.Kind == "inspect" { // a scope that looks at Model/Dest finds nothing to look at in a map or []int64
+			return "model"
+		}
 	}
 	return k.c.Source
 }
@@ -1337,7 +1476,7 @@ func (k *runner) countPath() {
 // without an ordering of their own; an effective offset is left out for all
 // three (the statement speaks of the lowest/highest key only).
 func (k *runner) singlePaths() {
-	if k.ref.offset > 0 {
+	if k.ref.offset > 0 || k.c.hasScope("page") {
 		return
 	}
 	inl := k.inlineArgs()
@@ -1444,7 +1583,7 @@ var errRunaway = errors.New("c15: more rows delivered than the table holds")
 // batchPaths: FindInBatches against Find under primary-key order and the
 // reference. Domain: no ordering of the chain's own.
 func (k *runner) batchPaths() {
-	if k.c.Order != "none" {
+	if k.c.Order != "none" || k.c.hasScope("page") {
 		return
 	}
 	ss := k.structSrc()
@@ -1562,6 +1701,12 @@ func (k *runner) batchPaths() {
 // idiom and is not generated; Pluck followed by reads from the original
 // reusable chain is.
 func (k *runner) continuationPaths() {
+	// scopes: running them consumes them and writes what they add into the statement the
+	// finisher returns; Count's ORDER BY bookkeeping then replaces an ordering a scope added.
+	// What a read continued from there should see is not stated anywhere: left out.
+	if k.c.hasScope("order") || k.c.hasScope("page") {
+		return
+	}
 	ps := k.plainSrc() // Count needs Model or Table
 	extra := k.c
 	extra.Calls = append(append([]Call(nil), k.c.Calls...), Call{"limit", k.c.ContLimit})
@@ -1827,7 +1972,10 @@ func classify(c Case, r *reference) (bool, []string) {
 		cl = append(cl, "cond:"+cd.Kind)
 	}
 	if c.Inline && len(c.Conds) > 0 {
-		cl = append(cl, "cond:inline")
+		cl = append(cl, "cond:inline", "cond:inline-"+c.Conds[len(c.Conds)-1].Kind)
+	}
+	for _, sc := range c.Scopes {
+		cl = append(cl, "scope:"+sc.Kind)
 	}
 	switch {
 	case r.limit < 0 && r.cancel:
@@ -2147,9 +2295,21 @@ func distinctCols(rt *rapid.T, n int) []string {
 }
 
 func genCond(rt *rapid.T, maxID int64) Cond {
-	kind := rapid.SampledFrom([]string{"raw", "raw", "rawor", "map", "map", "struct", "structptr"}).Draw(rt, "cond-kind")
+	kind := rapid.SampledFrom([]string{"raw", "raw", "rawor", "map", "map", "struct", "structptr", "pkint", "pkstring", "pkslice", "pkslice", "pkvariadic"}).Draw(rt, "cond-kind")
 	c := Cond{Kind: kind}
 	switch kind {
+	case "pkint", "pkstring", "pkslice", "pkvariadic":
+		n := 1
+		if kind == "pkslice" {
+			n = rapid.IntRange(1, 4).Draw(rt, "pk-values")
+		} else if kind == "pkvariadic" {
+			n = rapid.IntRange(2, 4).Draw(rt, "pk-values")
+		}
+		a := Atom{Col: "id", Op: "in"}
+		for i := 0; i < n; i++ {
+			a.I = append(a.I, int64(rapid.IntRange(1, int(maxID)+1).Draw(rt, "pk")))
+		}
+		c.Atoms = []Atom{a}
 	case "raw":
 		c.Atoms = []Atom{genAtom(rt, maxID, rawOps, allCols)}
 	case "rawor":
@@ -2215,6 +2375,21 @@ func genCase(rt *rapid.T) Case {
 	c.PtrBatch = rapid.Bool().Draw(rt, "ptr-batch")
 	c.Prefill = rapid.SampledFrom([]int{0, 0, 1, 3}).Draw(rt, "prefill")
 	c.Reuse = rapid.SampledFrom([]string{"", "session", "session", "context"}).Draw(rt, "reuse")
+	for i, n := 0, rapid.SampledFrom([]int{0, 0, 0, 1, 1, 2}).Draw(rt, "scopes"); i < n; i++ {
+		sc := Scope{Kind: rapid.SampledFrom([]string{"cond", "inspect", "inspect", "order", "order", "page"}).Draw(rt, "scope")}
+		switch sc.Kind {
+		case "cond":
+			sc.K = rapid.IntRange(-1, 4).Draw(rt, "scope-b")
+		case "inspect":
+			sc.K = rapid.IntRange(0, 3).Draw(rt, "scope-a")
+		case "page":
+			sc.K = rapid.IntRange(1, 8).Draw(rt, "scope-limit")
+			sc.O = rapid.IntRange(0, 4).Draw(rt, "scope-offset")
+		}
+		if !c.hasScope(sc.Kind) {
+			c.Scopes = append(c.Scopes, sc)
+		}
+	}
 	c.ContLimit = rapid.IntRange(1, 6).Draw(rt, "cont-limit")
 	c.ContOffset = rapid.IntRange(0, 4).Draw(rt, "cont-offset")
 	return c
